@@ -18,6 +18,9 @@ CHECKS = {
  "C14": dict(tech="static analysis: writer/reader table extraction and comparison for fixed-layout codecs on SSA, decoder-totality path queries, truth tables for the LVM accessors, tag/arm agreement rules, full-read rule",
    text="Decided exactly for the fixed layouts (NTP header, CSPTP message, request/response TLVs, 48-bit timestamp): encoder and decoder byte<->(field,shift) relations are equal, each field byte once, offsets cover the declared length once, decoder assigns every field on every success path - which is round-trip/re-encode equality for these codecs; LVM accessors verified on all 256x256 cases; NTS extension type written == type accepted per kind, pairwise distinct, dispatch by kind, 4-byte padding; cookie TLV tag sets equal; NTS-KE record arms, nil only at end-of-message, stream consumed only by full reads. Variable-length fields for all lengths are not decided.",
    ref="DESIGN.md §4 C14"),
+ "C20": dict(tech="static analysis: must-pass path queries over success returns (ALPN, record, exporter, cookie and algorithm gates), ordering rule for the critical bit, who-may-call and constant-argument rules for the TLS exporter, store-before-use and reset-on-failure path rules on SSA",
+   text="Structural necessary conditions decided exactly for their clause: ALPN gate and offer; exchangeKeys succeeds only through all five success conditions per transport; ReadData: nil only at end-of-message, error record always fails, unknown record fails iff the critical bit (read before masking) was set, non-critical unknown consumed by a full BodyLen read; single key derivation with RFC 8915 constants given as fresh constant arrays, on the session the records were exchanged on; dial defaults replace f.data before records are read; every failed exchange clears f.data; re-key only when the pool is empty; clients address the fetched server/port; server message kinds, 8 cookies under provider.Current() carrying the exported keys in their own direction. TLS and exporter values themselves are trusted.",
+   ref="DESIGN.md §4 C20"),
 }
 NA = {
  "C04": "all clauses are value arithmetic over time.Time/uint32 (truncation direction, era unfolding, order preservation); no structural or finite-domain clause; matching the constants would be a frozen-fragment proxy",
